@@ -2,6 +2,7 @@
  *
  * Built once per pool name by vlib/eng_module.py:
  *     gcc -shared -fPIC -DSTUB_NAME='"<name>"' stub_module.c -o <dir>/<name>.so
+ *     gcc -shared -fPIC -DSTUB_NAME='"<name>"' -DSTUB_NO_POST_INIT stub_module.c -o <dir>/<name>.nh.so
  *
  * The daemon opens modules with RTLD_GLOBAL, so every stub exports the same three
  * entry points.  module.c always resolves them with dlsym(<own handle>, ...), which
@@ -72,11 +73,14 @@ void module_constructor(const char *name)
     stub_event("ctor-end", NULL);
 }
 
+#ifndef STUB_NO_POST_INIT
+/* README: the post-init hook is optional; the <name>.nh.so variant is built without it */
 void module_post_init(struct module *self)
 {
     const char *n = module_get_name(self);
     stub_event("post-init", (n && !strcmp(n, stub_name)) ? NULL : (n ? n : "(null)"));
 }
+#endif
 
 void module_destructor(void)
 {
